@@ -2120,3 +2120,239 @@ def _(ex, a):
         return Some(a[1])
     ex.drop(a[1])
     return NONE()
+
+
+@prim('Mutex::get_mut', 'RwLock::get_mut')
+def _(ex, a):
+    l = ex.deref(a[0])
+    if l.x['poisoned']:
+        return Err(Agg('PoisonError', [Ref(a[0].cell, tuple(a[0].path) + (('f', 0),))]))
+    return Ok(Ref(a[0].cell, tuple(a[0].path) + (('f', 0),)))
+
+
+@prim('Mutex::into_inner', 'RwLock::into_inner')
+def _(ex, a):
+    return Ok(a[0].f[0])
+
+
+@prim('Mutex::is_poisoned', 'RwLock::is_poisoned')
+def _(ex, a):
+    return ex.deref(a[0]).x['poisoned']
+
+
+@prim('Cell::new')
+def _(ex, a):
+    return Agg('CellV', [a[0]])
+
+
+@prim('Cell::get')
+def _(ex, a):
+    return ex.copyval(ex.deref(a[0]).f[0])
+
+
+@prim('Cell::set')
+def _(ex, a):
+    ex.deref(a[0]).f[0] = a[1]
+    return UNIT()
+
+
+@prim('Cell::replace')
+def _(ex, a):
+    c = ex.deref(a[0])
+    old = c.f[0]
+    c.f[0] = a[1]
+    return old
+
+
+@pattern(r'^<(Option|Result|tuple|Box|VecDeque|BinaryHeap|BTreeSet|BTreeMap|HashMap|HashSet|AHashMap|AHashSet|array|Reverse|PhantomData|bool|char|str|unit) as Clone>::clone$')
+def _(ex, a):
+    return clone_value(ex, ex.deref(a[0]))
+
+
+@pattern(r'^<&.* as Clone>::clone$')
+def _(ex, a):
+    return ex.deref(a[0])
+
+
+# ------------------------------------------------------------------ more iterator API
+def _remaining_refs(ex, itref):
+    """materialise the remaining items of an iterator (by repeated next)"""
+    out = []
+    while True:
+        r = iter_next(ex, itref)
+        if r.variant == 0:
+            return out
+        out.append(r.f[0])
+
+
+@pattern(r'^<.* as Iterator>::rposition$')
+def _(ex, a):
+    it = ex.deref(a[0])
+    if it.kind != 'SliceIter':
+        raise Unsupported('rposition on ' + it.kind)
+    r, pos, end = it.f
+    v = ex.deref(r)
+    n = len(v.f) if end is None else end
+    f = Cell(a[1])
+    for i in range(n - 1, pos - 1, -1):
+        it.f[2] = i
+        if as_bool(ex, ex.call_closure(Ref(f), [elem_ref(r, i)])):
+            return Some(i - pos)
+    return NONE()
+
+
+@pattern(r'^<.* as DoubleEndedIterator>::rfind$')
+def _(ex, a):
+    f = Cell(a[1])
+    while True:
+        it = ex.deref(a[0])
+        if it.kind != 'SliceIter':
+            raise Unsupported('rfind on ' + it.kind)
+        r = _slice_next_back(ex, it)
+        if r.variant == 0:
+            return r
+        if as_bool(ex, ex.call_closure(Ref(f), [Ref(Cell(r.f[0]))])):
+            return r
+
+
+@pattern(r'^<.* as Iterator>::fold$')
+def _(ex, a):
+    c = Cell(a[0])
+    acc = a[1]
+    f = Cell(a[2])
+    for x in _remaining_refs(ex, Ref(c)):
+        acc = ex.call_closure(Ref(f), [acc, x])
+    return acc
+
+
+@pattern(r'^<.* as Iterator>::(sum|product)$')
+def _(ex, a):
+    c = Cell(a[0])
+    items = [ex.deref_all(x) for x in _remaining_refs(ex, Ref(c))]
+    tot = 0
+    for x in items:
+        tot = tot + x
+    return tot
+
+
+@pattern(r'^<.* as Iterator>::(max|min)$')
+def _(ex, a):
+    raise Unsupported('Iterator::max/min')
+
+
+@pattern(r'^<.* as Iterator>::filter_map$')
+def _(ex, a):
+    return Agg('FilterMapIter', [a[0], a[1]])
+
+
+@pattern(r'^<.* as Iterator>::find_map$')
+def _(ex, a):
+    f = Cell(a[1])
+    while True:
+        r = iter_next(ex, a[0])
+        if r.variant == 0:
+            return NONE()
+        o = ex.call_closure(Ref(f), [r.f[0]])
+        if o.variant == 1:
+            return o
+
+
+@pattern(r'^<.* as Iterator>::chain$')
+def _(ex, a):
+    return Agg('ChainIter', [a[0], a[1], 0])
+
+
+@pattern(r'^<.* as Iterator>::zip$')
+def _(ex, a):
+    return Agg('ZipIter', [a[0], a[1]])
+
+
+@pattern(r'^<.* as Iterator>::take_while$')
+def _(ex, a):
+    return Agg('TakeWhileIter', [a[0], a[1], False])
+
+
+@pattern(r'^<.* as Iterator>::skip_while$')
+def _(ex, a):
+    return Agg('SkipWhileIter', [a[0], a[1], False])
+
+
+@pattern(r'^<.* as Iterator>::peekable$')
+def _(ex, a):
+    return Agg('PeekIter', [a[0], None])
+
+
+@prim('Peekable::peek')
+def _(ex, a):
+    it = ex.deref(a[0])
+    if it.f[1] is None:
+        it.f[1] = iter_next(ex, Ref(a[0].cell, tuple(a[0].path) + (('f', 0),)))
+    if it.f[1].variant == 0:
+        return NONE()
+    return Some(Ref(a[0].cell, tuple(a[0].path) + (('f', 1), ('f', 0))))
+
+
+_iter_next_base = iter_next
+
+
+def iter_next(ex, itref):          # noqa: F811  (extends the dispatcher above)
+    it = ex.deref(itref)
+    k = it.kind
+    sub = lambda i: Ref(itref.cell, tuple(itref.path) + (('f', i),))
+    if k == 'FilterMapIter':
+        while True:
+            r = iter_next(ex, sub(0))
+            if r.variant == 0:
+                return r
+            o = ex.call_closure(sub(1), [r.f[0]])
+            if o.variant == 1:
+                return o
+    if k == 'ChainIter':
+        if it.f[2] == 0:
+            r = iter_next(ex, sub(0))
+            if r.variant == 1:
+                return r
+            it.f[2] = 1
+        return iter_next(ex, sub(1))
+    if k == 'ZipIter':
+        r1 = iter_next(ex, sub(0))
+        if r1.variant == 0:
+            return r1
+        r2 = iter_next(ex, sub(1))
+        if r2.variant == 0:
+            ex.drop(r1.f[0])
+            return r2
+        return Some(Agg('tuple', [r1.f[0], r2.f[0]]))
+    if k == 'TakeWhileIter':
+        if it.f[2]:
+            return NONE()
+        r = iter_next(ex, sub(0))
+        if r.variant == 0:
+            return r
+        if as_bool(ex, ex.call_closure(sub(1), [Ref(Cell(r.f[0]))])):
+            return r
+        it.f[2] = True
+        ex.drop(r.f[0])
+        return NONE()
+    if k == 'SkipWhileIter':
+        while True:
+            r = iter_next(ex, sub(0))
+            if r.variant == 0 or it.f[2]:
+                return r
+            if not as_bool(ex, ex.call_closure(sub(1), [Ref(Cell(r.f[0]))])):
+                it.f[2] = True
+                return r
+            ex.drop(r.f[0])
+    if k == 'PeekIter':
+        if it.f[1] is not None:
+            r, it.f[1] = it.f[1], None
+            return r
+        return iter_next(ex, sub(0))
+    return _iter_next_base(ex, itref)
+
+
+ITER_KINDS.update({'FilterMapIter', 'ChainIter', 'ZipIter', 'TakeWhileIter', 'SkipWhileIter', 'PeekIter'})
+# the generic dispatch pattern registered earlier looks iter_next up at call time through this module's globals
+for _i, (_rx, _fn) in enumerate(PATTERN_PRIMS):
+    if _rx.pattern == r'^<.* as Iterator>::next$':
+        PATTERN_PRIMS[_i] = (_rx, lambda ex, a: iter_next(ex, a[0]))
